@@ -302,7 +302,7 @@ func doRegClose(t *testing.T, tr *vhlib.Trace, reads, writes int) {
 
 func isL2(op string) bool {
 	switch op {
-	case "x3", "r3", "v2roots", "v2read", "v2write", "v2form", "regflush":
+	case "x3", "r3", "renew", "form2", "v2roots", "v2read", "v2write", "v2form", "regflush":
 		return true
 	}
 	return false
